@@ -15,14 +15,15 @@ SPEC = dict(
     engines=[
         dict(name="histmodel", shards=T(16, 16), timeout=T(600, 3000)),
         dict(name="histfiles", shards=T(16, 16), timeout=T(600, 3000)),
-             dict(name="gofuzz-FuzzHistoryFile", kind="gofuzz", target="FuzzHistoryFile", fuzztime=T(0, "90s"))],
+             dict(name="gofuzz-FuzzHistoryFile", kind="gofuzz", target="FuzzHistoryFile", fuzztime=T(0, "90s")),
+             dict(name="history-cli", shards=T(16, 16), timeout=T(900, 3600), needs_wtf=True)],
     rule="histmodel: case = one history (initial maximum in {1,2,3,100,<=0 -> default}, a pool of 2-7 queries incl. empty, 5 KB, multi-line, "
          "control characters, quotes, unicode and - in 15% of the histories - invalid UTF-8, and 1-600 operations add/save/load/"
          "load-into-fresh-object/new-object/clear/views with 35% immediate repeats); non-trivial = a distinct history that ran to its "
          "end and contained at least one trim (log exceeded the maximum), one collapse of an immediate repeat and one save -> load cycle. "
          "histfiles: case = one file content; non-trivial = a distinct content that is a valid JSON object or a truncation of a valid "
          "file. evaluations = histories + files (operations are in coverage.histmodel_operations).",
-    floors=T({"evaluations": 7500, "distinct_nontrivial": 2500, "trim": 1500, "collapse": 3500, "save-load-cycles": 2500, "clear": 1000,
+    floors=T({"cli-history-sessions": 40, "cli-history-with-repeats": 15, "evaluations": 7500, "distinct_nontrivial": 2500, "trim": 1500, "collapse": 3500, "save-load-cycles": 2500, "clear": 1000,
               "save-verified": 20000, "files-valid": 600, "files-truncated": 600, "files-garbage": 800, "files-maxsize-nonpositive": 300},
              {"evaluations": 150000, "distinct_nontrivial": 50000, "trim": 30000, "collapse": 70000, "save-load-cycles": 50000,
               "clear": 20000, "save-verified": 400000, "files-valid": 12000, "files-truncated": 12000, "files-garbage": 16000,
